@@ -740,28 +740,36 @@ func R31() Rule {
 			case "leveldbRows":
 				var closeCall, reopen ssa.Instruction
 				reopenNuke := false
-				for _, b := range fn.Blocks {
-					for _, in := range b.Instrs {
-						if ci := core.Call(in); ci != nil && ci.MethodOn(pkgLdb, "DB", "Close") {
-							closeCall = in
-						}
-						if st, ok := in.(*ssa.Store); ok {
-							if fa, ok := st.Addr.(*ssa.FieldAddr); ok {
-								if _, f, _ := core.FieldName(fa); f == "db" {
-									if call, ok := core.Resolve(st.Val).(*ssa.Call); ok {
-										if len(call.Call.Args) == 1 {
-											if bv, isB := core.ConstBool(call.Call.Args[0]); isB && bv {
-												reopenNuke = true
+				// Clear together with the helpers it is split into
+				clScope := P.Scope(fn, func(f *ssa.Function) bool { return core.PkgPathOf(f) != core.PkgBttest })
+				clSet := setOf(clScope)
+				for _, sf := range clScope {
+					for _, b := range sf.Blocks {
+						for _, in := range b.Instrs {
+							if ci := core.Call(in); ci != nil && ci.MethodOn(pkgLdb, "DB", "Close") {
+								closeCall = in
+							}
+							if st, ok := in.(*ssa.Store); ok {
+								if fa, ok := st.Addr.(*ssa.FieldAddr); ok {
+									if _, f, _ := core.FieldName(fa); f == "db" {
+										if call, ok := core.Resolve(st.Val).(*ssa.Call); ok {
+											for _, a := range call.Call.Args {
+												if !isBoolType(a.Type()) {
+													continue
+												}
+												if P.AllOrigins(a, clSet, func(o ssa.Value) bool { bv, isB := core.ConstBool(o); return isB && bv }) {
+													reopenNuke = true
+												}
 											}
+											reopen = st
 										}
-										reopen = st
 									}
 								}
 							}
 						}
 					}
 				}
-				ok := closeCall != nil && reopen != nil && reopenNuke && core.InstrDominates(closeCall, reopen)
+				ok := closeCall != nil && reopen != nil && reopenNuke && P.InterDominates(fn, closeCall, reopen, clSet)
 				c.Check(ok, "R31", "clear/leveldbRows", fn.Pos(), "closes the database, then reopens it with nuke=true and stores the new handle", "Clear does not close-then-reopen(nuke=true): the table keeps its old rows or is left without a usable database")
 			}
 		}
